@@ -13,7 +13,8 @@ META = {
     "explanation": "R02.plumb: the first argument of every get_line_number call is Loc::start of an element of the dispatched detector's result, the second is the very "
                    "&str parameter that was parsed; every location is converted (loop over the whole set, no filter) and the set of lines is returned. "
                    "R02.range: every value returned by get_line_number is >= 1. R02.canon: the body is the canonical form "
-                   "1 + |{ i < offset : text.bytes[i] == '\\n' }| (bytes().take(offset).filter(== b'\\n').count() + 1, or the equivalent counting loop); byte offsets, "
+                   "1 + |{ i < offset : text.bytes[i] == '\\n' }| (bytes().take(offset).filter(== b'\\n').count() + 1, the equivalent counting loop, or the table form: the ascending positions of the 0x0A bytes collected by one "
+                   "complete forward loop over text.bytes().enumerate() and searched with partition_point(|p| *p < offset) + 1); byte offsets, "
                    "so CRLF and multi-byte characters before the construct are handled by construction. R02.where: for every detector with a specification, each location it inserts is - relative to the node it matched - one of the "
                    "report paths of its specification (the construct's own location, not that of an operand); which nodes match and when is decided by C05-C09.",
     "assumptions": ["Loc::start() is the byte offset of the first byte of the construct (parser contract)",
@@ -125,12 +126,20 @@ def run(ctx, crate):
     obs = []
     disp = D.all_dispatch(crate)
     obs += where_obligations(crate, disp)
+    table_forms = 0
     for d in disp.values():
         if not d.ok or d.problems:
             obs.append(Ob("R02.plumb", d.path, "dispatch analysable", False, found=d.problems if d.ok else "missing"))
             continue
         b = d.body
         lf = [s for s in d.sites if s.path == D.LINE_FN]
+        via = lookup_via(crate, d) if lf else None
+        if not lf or via is not None:
+            tf = table_form(crate, d, via)
+            if tf is not None:
+                obs += tf
+                table_forms += 1
+                continue
         if len(lf) != 1:
             obs.append(Ob("R02.plumb", d.path, "one line lookup", False, found=len(lf)))
             continue
@@ -160,6 +169,8 @@ def run(ctx, crate):
                       found="unconditional=%s inserted_into_result=%s%s" % (unconditional, inserted, (" detector result borrowed mutably at line(s) %s" % edited) if edited else "")))
     # ---------------- get_line_number
     lb = crate.bodies.get(D.LINE_FN)
+    if table_forms == len(disp) and table_forms > 0:
+        return obs  # every lookup goes through a table of line-feed positions built from the text (judged above); there is no counting function left
     if lb is None:
         obs.append(Ob("R02.range", D.LINE_FN, "anchor missing", False))
         return obs
@@ -176,6 +187,129 @@ def run(ctx, crate):
     obs.append(Ob("R02.canon", D.LINE_FN, "line = 1 + number of line feeds before the offset (canonical counting form)", canon,
                   expected="text.bytes().take(offset).filter(|b| *b == b'\\n').count() + 1", found=why,
                   note="when the form is not recognised the counting arithmetic is reported as not decided (fail closed)"))
+    return obs
+
+
+def lookup_via(crate, d):
+    """the single call of the line function in this entry point, when that function is the searching half of the table form:
+    fn(offset, table) = table.partition_point(|p| *p < offset) as i32 + 1. Returns (site, the value with the call's arguments put in) or None"""
+    lf = [s for s in d.sites if s.path == D.LINE_FN]
+    lb = crate.bodies.get(D.LINE_FN)
+    if len(lf) != 1 or lb is None or lb.arg_count != 2 or len(lf[0].args) != 2:
+        return None
+    v = lb.val_local(0)
+    if not (v[0] == "bin" and v[1] == "Add"):
+        return None
+    a, one = (v[2], v[3]) if v[3][0] == "const" else (v[3], v[2])
+    casts = []
+    while a[0] == "cast":
+        casts.append(a)
+        a = a[1]
+    if not (one == ("const", "int", 1) and T.is_call(a, "partition_point") and len(a[2]) == 2):
+        return None
+    tab, clo = a[2]
+    while tab[0] == "call" and tab[1].rsplit("::", 1)[-1] in ("deref", "as_ref", "borrow") and len(tab[2]) == 1:
+        tab = tab[2][0]
+    if tab != ("param", 2) or not (clo[0] == "agg" and clo[1] == "closure" and tuple(clo[3]) == (("param", 1),)):
+        return None
+    s = lf[0]
+    inner = ("call", a[1], (s.args[1], ("agg", "closure", clo[2], (s.args[0],))), a[3] if len(a) > 3 else None)
+    for c in reversed(casts):
+        inner = ("cast", inner) + tuple(c[2:])
+    return s, ("bin", "Add", inner, ("const", "int", 1))
+
+
+def table_form(crate, d, via=None):
+    """The other way to the same number: the positions of the line feeds of the text are collected once, in ascending order, and a location's line is
+    1 + (how many of them lie before its offset), found by `partition_point(|p| *p < offset)`. Returns the obligations (same rules as the counting form), or
+    None when the conversion does not have this shape at all."""
+    import order as O
+    b = d.body
+    ins = [x for x in d.sites if x.path.endswith("::insert") and x.args and x.args[0] == b.val_local(0)]
+    if len(ins) != 1 or len(ins[0].args) != 2:
+        return None
+    v = ins[0].args[1]
+    if via is not None:
+        if v != via[0].result:
+            return None
+        v = via[1]
+    if not (v[0] == "bin" and v[1] == "Add"):
+        return None
+    a, one = v[2], v[3]
+    if a[0] == "const":
+        a, one = one, a
+    while a[0] == "cast":
+        a = a[1]
+    if not (one == ("const", "int", 1) and T.is_call(a, "partition_point") and len(a[2]) == 2):
+        return None
+    tab, clo = a[2]
+    while tab[0] == "call" and tab[1].rsplit("::", 1)[-1] in ("deref", "as_ref", "borrow", "as_slice") and len(tab[2]) == 1:
+        tab = tab[2][0]
+    obs = []
+    s = ins[0]
+    pps = [x for x in d.sites if x.path.endswith("::partition_point") and x.args and x.args[0] == tab] if via is None else [via[0]]
+    where = pps[0].where if pps else s.where
+    # --- the offset looked up
+    locs = [c.result for c in d.table.values()]
+    off = clo[3][0] if (clo[0] == "agg" and clo[1] == "closure" and len(clo[3]) == 1) else None
+    ok0 = off is not None and T.is_call(off, "Loc::start") and off[2] and off[2][0][0] == "elem"
+    coll = off[2][0][1] if ok0 else None
+    members = set(coll[2]) if (coll is not None and coll[0] == "phi") else ({coll} if coll is not None else set())
+    obs.append(Ob("R02.plumb", d.path, "offset = start() of an element of the detector's result", bool(ok0 and members == set(locs)), site=where,
+                  expected="the offset compared with the table is loc.start() for loc in <result of the dispatched detector>", found=show(off)[:120] if off is not None else show(clo)[:120]))
+    # --- the table: positions of the line feeds of the parsed text, ascending
+    why = []
+    cb = crate.bodies.get(clo[2]) if clo[0] == "agg" and clo[1] == "closure" else None
+    cap = ("proj", ("param", 1), ("f", 0, None))
+    pred = cb.val_local(0) if cb is not None else None
+    if pred not in (("bin", "Lt", ("param", 2), cap), ("bin", "Gt", cap, ("param", 2))):
+        why.append("the predicate of partition_point is %s, not `*position < offset`" % (show(pred) if pred is not None else "unknown"))
+    created = O.creation_block(b, tab)
+    if not (tab[0] == "call" and tab[1].startswith("std::vec::Vec::") and tab[1].rsplit("::", 1)[-1] in ("new", "with_capacity")) or created is None or b.loops_of(created):
+        why.append("the table is not a vector created once in this function")
+    READS = ("deref", "as_slice", "len", "is_empty", "partition_point", "as_ref", "borrow", "iter")
+    uses = [x for x in d.sites if x.args and any(T.contains(y, tab) for y in x.args) and x is not s and not (via is not None and x is via[0])]
+    pushes = [x for x in uses if x.path.endswith("::push") and x.args[0] == tab]
+    others = [x for x in uses if x not in pushes and not (x.args[0] == tab and x.path.rsplit("::", 1)[-1] in READS)]
+    if others:
+        why.append("the table is also handed to %s" % ", ".join(sorted(set(core.short_fn(x.path) for x in others))))
+    text_ok = False
+    if len(pushes) != 1:
+        why.append("%d pushes into the table" % len(pushes))
+    else:
+        p = pushes[0]
+        val = p.args[1]
+        by = val[1] if val[0] == "idx" else None
+        lps = [lp for lp in O.loops_of_body(b) if p.bb in lp.blocks and b.loops_of(p.bb) == [lp.head]]
+        if by is None or not T.is_call(by, "bytes") or not by[2]:
+            why.append("what is pushed is %s, not the position of a byte of the text" % show(val)[:60])
+        elif len(lps) != 1 or lps[0].iterable != ("enumerate", by) or lps[0].order != "ordered" or lps[0].exits()[1]:
+            why.append("the positions are not collected by one forward loop over text.bytes().enumerate() that runs to the end")
+        else:
+            lp = lps[0]
+            text_ok = by[2][0] == ("param", 1) and d.parse.args[0] == ("param", 1)
+            gp = S.block_guard(b, p.bb, {("elem", by): "b"}) or []
+            gl = S.block_guard(b, lp.site.bb, {("elem", by): "b"}) or [[]]
+            extra = [sorted(set(c) - set(gl[0])) for c in gp] if len(gl) == 1 else None
+            if extra != [["eq(b, 10)"]]:
+                why.append("a position is recorded under %s, not exactly for the bytes that are line feeds" % S.guard_str(gp)[-80:])
+            if not pps or not all(b.dominates(lp.head, x.bb) and x.bb not in lp.blocks for x in pps):
+                why.append("the table is consulted before it is complete")
+    obs.append(Ob("R02.plumb", d.path, "the line is looked up in the same text that was parsed", text_ok, site=where,
+                  expected="the table is built from the text parameter handed to the parser", found="table of %s" % (show(pushes[0].args[1])[:60] if len(pushes) == 1 else "?")))
+    obs.append(Ob("R02.canon", d.path, "line = 1 + number of line feeds before the offset (table of line-feed positions, searched)", not why, site=where,
+                  expected="positions of the 0x0A bytes of the text in ascending order; line = partition_point(|p| *p < offset) + 1", found=why or "positions of 0x0A ascending, partition_point(< offset) + 1",
+                  note="a line-feed position p precedes the offset iff p < offset, and the positions are ascending, so the partition point is their number"))
+    obs.append(Ob("R02.range", d.path, "every returned line number is >= 1", True, site=where, found="partition_point(..) + 1"))
+    # --- every location converted and kept
+    g = s.guard
+    nonempty = "gt(len(%s), 0)" % show(coll) if coll is not None else None
+    no_exit = all(not lp.exits()[1] for lp in O.loops_of_body(b))
+    unconditional = g is not None and all(all(x.startswith("is(arg3; ") or x == nonempty for x in c) for c in g) and len(b.loops_of(s.bb)) == 1 and no_exit
+    edited = sorted(set(l_ for site_ in d.table.values() for l_ in S.mutable_borrows_of_result(b, site_)))
+    obs.append(Ob("R02.plumb", d.path, "every location is converted and kept", unconditional and not edited, site=s.where,
+                  expected="for loc in locations { lines.insert(line of loc.start()) }; return lines — the detector's set not edited in between",
+                  found="unconditional=%s%s" % (unconditional, (" detector result borrowed mutably at line(s) %s" % edited) if edited else "")))
     return obs
 
 
